@@ -26,7 +26,8 @@ pub fn bases() -> Vec<String> {
 fn discriminator(m: &Value, gptr: &str, e: &MEdit) -> String {
     let ptr = match e {
         MEdit::KeyDeleted { ptr } | MEdit::ItemDeleted { ptr } | MEdit::ArrayEmptied { ptr } | MEdit::ArrayDuplicated { ptr }
-        | MEdit::ArrayTruncated { ptr } | MEdit::IdRedirected { ptr, .. } | MEdit::NumberZeroed { ptr } | MEdit::NumberNegated { ptr } => ptr.clone(),
+        | MEdit::ArrayTruncated { ptr } | MEdit::IdRedirected { ptr, .. } | MEdit::NumberZeroed { ptr } | MEdit::NumberNegated { ptr }
+        | MEdit::NumberNudged { ptr, .. } => ptr.clone(),
         _ => return String::new(),
     };
     let parts: Vec<&str> = ptr.split('/').collect();
